@@ -156,6 +156,7 @@ def run(rep, tier):
                            w, 'integer/length' if chk else 'double bit pattern', row['why']),
                        'byte slots of the decoded 64-bit word (least significant first): %s' % row['slots'],
                        sample={'width': w, 'kind': 'integer' if chk else 'double', 'decoded_word_bytes': row['slots']})
+        rep.coverage['value_stores_verified_end_to_end'] = value_e2e(rep, mod)
         # ---- clause 2: exact sub-span (uncompacted token decoding, one calling context is enough: the stores are context independent)
         sres = runner.run(mod, [('binson_parser_next', lb, {'compact': (), 'weight': 5}) for lb in ('ok-d0', 'ok-d1')], hooks_cls=GHooks, post=post)
         nspan = 0
@@ -177,3 +178,95 @@ def run(rep, tier):
         'explanation': 'abstract interpretation per current_type constant; span exactness from the affine offset forms at the store sites',
     })
     rep.assumptions += ['the byte-slot domain covers the assembly loop (unrolled for the constant widths 1/2/4/8); that the w bytes handed to it are the token\'s payload is the span clause; boolean decoding is a single comparison and is not separately checked']
+
+
+# ------------------------------------------------------------------------------------------------------------------
+# clause 5: value assembly end to end - what one iteration of the token loop stores as the current value of an
+# integer / double token is the sign-extended little-endian reading of THAT token's payload bytes
+
+def value_e2e(rep, mod):
+    from props import stepm
+    from engine.contracts import Contracts
+    from engine.absval import Int as _Int
+    from engine.lin import Aff as _Aff
+    lay = Layout(mod)
+    # the scan mode binson_parser_next passes
+    nxt = mod.functions.get('binson_parser_next')
+    need(nxt is not None, 'C03: binson_parser_next not found')
+    modes = set()
+    for ins in nxt.instructions():
+        if ins.op == 'call' and ins.attrs['callee'] == ('global', stepm.STEP_FN):
+            a = ins.ops[1][1]
+            if isinstance(a, tuple) and a[0] == 'int':
+                modes.add(a[1] & 0xff)
+    need(len(modes) == 1, 'C03: binson_parser_next does not pass one constant scan mode to %s' % stepm.STEP_FN)
+    mode = modes.pop()
+    flags_alpha = stepm.level_flag_constants(mod, lay)
+    import json
+    spec = json.load(open(stepm.SPEC))
+    n_ok = 0
+    for key, row in sorted(spec['tokens'].items()):
+        if row['kind'] not in ('integer', 'double'):
+            continue
+        b = int(key, 16)
+        w = row['width']
+        found = 0
+        for flags in flags_alpha:
+            hooks = stepm.StepHooks()
+            C = Contracts(mod, hooks)
+            C.I.ctx.limits['step'] = (stepm.STEP_FN,)
+            C.I.ctx.limits['sig'] = True
+            C.I.ctx.limits['cap'] = 4096
+            C.I.ctx.limits['slots'] = True
+            C.I.ctx.limits['unroll'] = {'_parse_integer'}
+            fn = mod.functions[stepm.STEP_FN]
+            phi = stepm.scan_flags_phi(fn, C.I.info(fn))
+            K = {'tok': (b, b), 'flags': flags, 'dz': False, 'mode': mode}
+            st, args, sym = stepm.build_entry(C, hooks, K)
+            insyms = []
+            for k in range(w):
+                s_ = st.fresh('byte:payload[%d]' % k, 8)
+                st.bufmemo[('BUF', _Aff.sym(sym['k:u']).add(1 + k).key())] = s_
+                insyms.append(s_)
+            st.frames = [C._root_frame()]
+            outs = C.I.call_function(st, fn, args, None)
+            cand = [s for (s, rv) in outs if 'step_base' in s.tags] + list(hooks.backs)
+            for s in cand:
+                F = lay.parser
+                e = (s.cells('P') or {}).get(((F['error_flags'][0], ()), 4))
+                if e is None or not isinstance(e[2], _Int) or s.store.const_of(e[2].a) != 0:
+                    continue
+                base = s.tags['step_base']
+                o = base.add(lay.state['current_value'][0])
+                c = (s.cells('STATE') or {}).get((o.key(), 8))
+                dirty = s.tags.get('step_dirty') or frozenset()
+                if c is None or (o.key(), 8) not in dirty:
+                    continue            # this iteration did not store a 64-bit current value (value not accepted in this level state)
+                found += 1
+                sl = C.I.ops.slots(s, c[2]) if isinstance(c[2], _Int) else None
+                ok = sl is not None and len(sl) == 8
+                why = ''
+                if ok:
+                    for k in range(w):
+                        if sl[k] != ('b', insyms[k]):
+                            ok = False
+                            why = why or 'byte %d of the stored value is %r, expected payload byte %d of the token' % (k, sl[k], k)
+                    zeros, ones = s.kb.get(insyms[w - 1], (0, 0))
+                    for k in range(w, 8):
+                        if sl[k] == ('c', 0xff) and (ones & 0x80):
+                            continue
+                        if sl[k] == ('c', 0x00) and (zeros & 0x80):
+                            continue
+                        ok = False
+                        why = why or 'byte %d of the stored value is %r, expected the sign fill of payload byte %d (sign bit known: zeros=%#x ones=%#x)' % (k, sl[k], w - 1, zeros, ones)
+                else:
+                    why = 'the stored value has no byte-slot description (%r)' % (c[2],)
+                n_ok += 1 if ok else 0
+                rep.ob(ok, '_advance_parsing:VALUE-E2E:%s:%d' % (key, flags),
+                       'C03 VALUE-E2E the value the token loop records for a %d-byte %s token (type byte %s, level flags 0x%02x) is not the sign-extended '
+                       'little-endian reading of its payload: %s' % (w, row['kind'], key, flags, why),
+                       'byte slots of the stored 64-bit value (least significant first): %s' % [repr(x) for x in (sl or ())],
+                       sample={'type_byte': key, 'width': w, 'stored_value_bytes': [repr(x) for x in (sl or ())]})
+        need(found >= 1, 'C03: no iteration of the token loop stores a value for type byte %s' % key)
+    need(n_ok >= 5, 'C03: only %d value stores verified end to end' % n_ok)
+    return n_ok
